@@ -443,3 +443,46 @@ package fpgo
 //@   requires corSelf != nil
 //@   ensures closed: corSelf.isClosed && forall(k, old(tr_len), tr_len, tr_kind[k] == 6 && (tr_obj[k] == corSelf.resultCh || tr_obj[k] == corSelf.opCh)) && tr_len == old(tr_len) + ite(corSelf.resultCh != nil, 1, 0) + ite(corSelf.opCh != nil, 1, 0)
 //@   ensures fields-kept: corSelf.effect == old(corSelf.effect) && corSelf.opCh == old(corSelf.opCh) && corSelf.resultCh == old(corSelf.resultCh) && corSelf.isStarted == old(corSelf.isStarted)
+
+// thin constructors delegating to the ones above
+//@ func (HandlerDef).New
+//@   prop C12
+//@   opt callbacks=effectful
+//@   opt effects=trace
+//@   ensures one-consumer: tr_len == old(tr_len)+1 && tr_kind[old(tr_len)] == 4
+//@   ensures made: r0 != nil && fresh(r0) && r0.ch != nil && fresh(r0.ch) && !r0.isClosed
+//@ func ActorNewGenerics
+//@   prop C12
+//@   opt callbacks=effectful
+//@   opt effects=trace
+//@   ensures one-consumer: tr_len == old(tr_len)+1 && tr_kind[old(tr_len)] == 4
+//@   ensures made: r0 != nil && fresh(r0) && r0.ch != nil && fresh(r0.ch) && r0.effect == effect && !r0.isClosed && r0.parent == nil
+//@ func (ActorDef).New
+//@   prop C12
+//@   opt callbacks=effectful
+//@   opt effects=trace
+//@   ensures one-consumer: tr_len == old(tr_len)+1 && tr_kind[old(tr_len)] == 4
+//@   ensures made: r0 != nil && fresh(r0) && r0.ch != nil && fresh(r0.ch) && r0.effect == effect && !r0.isClosed && r0.parent == nil
+//@ func (ActorDef).NewByOptions
+//@   prop C12
+//@   opt callbacks=effectful
+//@   opt effects=trace
+//@   ensures one-consumer: tr_len == old(tr_len)+1 && tr_kind[old(tr_len)] == 4
+//@   ensures made: r0 != nil && fresh(r0) && r0.ch == ioCh && r0.effect == effect && !r0.isClosed && r0.parent == nil
+//@ func (AskDef).New
+//@   prop C13
+//@   ensures own-channel: r0 != nil && fresh(r0) && r0.ch != nil && fresh(r0.ch) && chancap(r0.ch) >= 1 && r0.Message == message
+//@ func (AskDef).NewByOptions
+//@   prop C13
+//@   ensures made: r0 != nil && fresh(r0) && r0.ch == ioCh && r0.Message == message
+//@ func (CorDef).NewAndStart
+//@   prop C14
+//@   opt callbacks=effectful
+//@   opt effects=trace
+//@   ensures started: r0 != nil && fresh(r0) && r0.effect == effect && r0.isStarted && !r0.isClosed && tr_len == old(tr_len)+1 && tr_kind[old(tr_len)] == 4
+//@ func (MonadIODef).Just
+//@   prop C11
+//@   opt callbacks=effectful
+//@   opt effects=trace
+//@   ensures lazy: tr_len == old(tr_len)
+//@   ensures made: r0 != nil && fresh(r0) && r0.obOn == nil && r0.subOn == nil && r0.effect != nil
